@@ -127,6 +127,8 @@ def prior_job(interp, c, case):
                 c.assume(s_not(cond))
             elif cond is not True:
                 c.assume(cond)
+    # the prior dictionary need not list the parameters in the order of the parameter vector
+    prior = dict(reversed(list(prior.items())))
     pid = P.ns["PIDInterface"](["p%d" % i for i in range(len(fams))], _StubModel(), prior)
     tag = "+".join("%s%s%s" % (f, "" if shapes[i] == "sym" else list(shapes[i]), "/positive" if positives[i] else "")
                    for i, f in enumerate(fams))
